@@ -301,3 +301,43 @@ def c06_gas_overflow_family():
         s.append({"op": "commit"})
         out.append(s)
     return out
+
+
+def pool_expiry_family(tier="quick"):
+    """a signed transaction parked in block 2 idles its whole window and is dropped while block 12 is finalised.  Around that
+    edge: reorgs to exactly 12 / 11 / 13 (with and without a commit) must show the pool a fresh replay up to the target would
+    have; a REJECTED finalise of block 12 must not drop it early; a predecessor arriving in block 11 / 12 drains it or not."""
+    out = []
+    head = [{"op": "init", "hash": "h100", "ts": 100, "height": 0},
+            {"op": "tx", "via": "deploy", "from": "s1", "to": "NULL", "ckind": "cell", "ops": [], "lc": {"fn": "none"}, "insc": "pe0", "idx": 0,
+             "hash": "h1", "ts": 101, "gas": "ample", "txid": "x1", "enc": "hex"},
+            {"op": "finalise", "ts": 101, "hash": "h1", "count": 1},
+            {"op": "transact", "signer": "k1", "nonce": 1, "to": "c_s1_0", "ckind": "NULL", "ops": [{"op": "sstore", "s": 2, "v": 3}], "chain": "own",
+             "insc": "pe1", "idx": 0, "hash": "h2", "ts": 102, "txid": "x2", "gas": "ample", "enc": "hex"},
+            {"op": "finalise", "ts": 102, "hash": "h2", "count": 0}]
+    fin = lambda b: {"op": "finalise", "ts": 100 + b, "hash": "h%d" % b, "count": 0}
+    for commit in (False, True):
+        for target in (12, 11, 13):
+            s = list(head) + [fin(b) for b in range(3, 15)]
+            if commit:
+                s.append({"op": "commit"})
+            s.append({"op": "reorg", "n": target})
+            s += [{"op": "finalise", "ts": 300, "hash": "h300", "count": 0}, {"op": "finalise", "ts": 301, "hash": "h301", "count": 0}, {"op": "commit"}, {"op": "restart"}]
+            out.append(s)
+    # a rejected finalise (wrong count / a hash already on the chain) of the block whose finalise would drop the entry
+    for bad in ({"count": 5}, {"hash": "h5"}):
+        s = list(head) + [fin(b) for b in range(3, 12)]
+        f = fin(12)
+        f.update(bad)
+        s += [f, fin(12), fin(13), {"op": "commit"}]
+        out.append(s)
+    # the predecessor arrives in the last block of the window / one block too late
+    for arrive in (11, 12):
+        s = list(head) + [fin(b) for b in range(3, arrive)]
+        hh = "h%d" % arrive
+        s.append({"op": "transact", "signer": "k1", "nonce": 0, "to": "c_s1_0", "ckind": "NULL", "ops": [{"op": "sstore", "s": 1, "v": 1}], "chain": "own",
+                  "insc": "pe9", "idx": 0, "hash": hh, "ts": 100 + arrive, "txid": "x9", "gas": "ample", "enc": "hex"})
+        s.append({"op": "finalise", "ts": 100 + arrive, "hash": hh, "count": 2 if arrive == 11 else 1})
+        s += [fin(arrive + 1), {"op": "commit"}]
+        out.append(s)
+    return out
